@@ -1,4 +1,4 @@
-\* MC_GoChannel_u_quick.cfg2
+\* unbuffered, repaired protocol (KF = {}), 2 senders x 2 receivers x 1 call, all call kinds, no close() (close(): thorough tier)
 SPECIFICATION Spec
 CONSTANTS
   Cap = 0
@@ -8,7 +8,7 @@ CONSTANTS
   NR = 1
   SKinds = {"inf", "timed", "try"}
   RKinds = {"inf", "timed", "try"}
-  WithClose = TRUE
+  WithClose = FALSE
   KF = {}
 INVARIANTS TypeOK DeliveredExactlyOnce PerSenderOrder FalseOnlyOnCloseOrTimeout DrainAfterClose ReleasedWhenPartnerExists ReleasedOnClose
 CHECK_DEADLOCK FALSE
